@@ -18,7 +18,8 @@
 From Coq Require Import List Bool NArith ZArith Permutation.
 From Coq Require Import Init.Byte.
 From Bec2 Require Import Base.Result Base.Bytes Gen.Consts Model.Bf2Str Model.Bf2Import
-  Proofs.Bf2UnpackProofs Proofs.Bf2FilterProofs Proofs.Bf2ImportProofs Proofs.Bf2TextProofs.
+  Proofs.Bf2UnpackProofs Proofs.Bf2FilterProofs Proofs.Bf2ImportProofs Proofs.Bf2TextProofs
+  Proofs.Bf2ClosureProofs.
 Import ListNotations.
 Open Scope N_scope.
 
@@ -321,6 +322,45 @@ Theorem C13_text_group_partial : forall ls, ls <> [] -> Forall text_ok ls ->
   parse_text (render_group ls) = Ok [Load ls].
 Proof. exact parse_rendered_group. Qed.
 Print Assumptions C13_text_group_partial.
+
+(* ---- error closure (cited by C14) ------------------------------------------------------ *)
+
+(* Every error of the text-level importer model is a format error or a ValueError
+   (is_format_or_value: Bf3FileFormatError and subclasses, ValueError, UnicodeDecodeError);
+   for every text, with and without enforcement.  The ValueError cases are a data line whose
+   tag is shorter than its length byte says (BytesReader in bf2_unpack_payload) and a BGM12X
+   version that is not UTF-8 (UnicodeDecodeError in annotations). *)
+Theorem C13_import_text_closure : forall text enforce e,
+  bf2_import_text text enforce = Err e -> is_format_or_value e = true.
+Proof. exact import_text_closure. Qed.
+Print Assumptions C13_import_text_closure.
+
+(* the same for token streams the parser can produce: no empty data group, no instruction
+   called "load" (parse_bf2_file refuses "#>load" and "##load:") *)
+Theorem C13_import_tokens_closure : forall toks enforce e, Forall tok_ok toks ->
+  bf2_import toks enforce = Err e -> is_format_or_value e = true.
+Proof. exact import_tokens_closure. Qed.
+Print Assumptions C13_import_tokens_closure.
+
+(* the parser yields only such tokens and fails only with ValueError *)
+Theorem C13_parse_closure : forall text,
+  (forall e, parse_text text = Err e -> e = EValue) /\
+  (forall toks, parse_text text = Ok toks -> Forall tok_ok toks).
+Proof. intro text. exact (parse_lines_facts (lines_of text []) []). Qed.
+Print Assumptions C13_parse_closure.
+
+(* without tok_ok (token streams no text can produce) non-format errors remain *)
+Example C13_import_tokens_closure_refuted :
+  bf2_import [Load []] true = Err EIndex /\
+  bf2_import [Instr s_load (PDict [])] true = Err EKey /\
+  bf2_import [Instr s_load (PStr [])] true = Err EIndex.
+Proof. exact import_tokens_residual. Qed.
+Print Assumptions C13_import_tokens_closure_refuted.
+
+(* pfid2_filter_to_str fails with Bf3FileFormatError only *)
+Theorem C13_filter_str_closure : forall f e, pfid2_filter_to_str f = Err e -> e = EBf3.
+Proof. exact filter_str_closure. Qed.
+Print Assumptions C13_filter_str_closure.
 
 (* non-vacuity: a two-section token stream (a small SM4200 blob closed by #>REBOOT and a
    main firmware) satisfies the hypotheses used above and imports with the expected
